@@ -263,6 +263,45 @@ def run(ctx: Ctx):
         if rng.uniform() < 0.5:
             lo, hi = round(lo, 1), max(round(hi, 1), round(lo, 1) + 0.1)
         check_power(ctx, nss, Simulation, sm, cfg, p, lo, min(hi, 12.0), top, "boundary_u_to_1")
+    # ------------------------------------------------------------------ the index as a user can write it: Python int, numeric
+    # string, integer literal in a TOML file (the property speaks of the configured index, whatever its spelling)
+    import os
+    import tempfile
+    us_i = np.linspace(0.0, 1.0, 41)
+    for iv in (0, 1, 2, 3, 4):
+        for spelling in ("int", "str", "toml"):
+            try:
+                if spelling == "int":
+                    spec_i = Simulation.PowerSpectrum(index=iv, lower_bound=7, upper_bound=11)
+                elif spelling == "str":
+                    spec_i = Simulation.PowerSpectrum(index=str(iv), lower_bound="7", upper_bound="11")
+                else:
+                    with tempfile.NamedTemporaryFile("w", suffix=".toml", delete=False) as f:
+                        f.write(f'[simulation.spectrum]\nid = "powerspectrum"\nindex = {iv}\nlower_bound = 7\nupper_bound = 11\n')
+                    try:
+                        spec_i = nss.config.config_from_toml(f.name).simulation.spectrum
+                    finally:
+                        os.unlink(f.name)
+            except Exception as e:  # noqa
+                ctx.violation("PowerSpectrum", f"integer-index-rejected:{spelling}", f"index {iv!r} written as {spelling} is rejected: {type(e).__name__}", {"index": iv, "spelling": spelling})
+                continue
+            ctx.count(f"index-spelling:{spelling}")
+            out, exc, _ = call_real(nss, sm, cfg, spec_i, len(us_i), us_i)
+            case = {"index": iv, "spelling": spelling, "index_type": type(spec_i.index).__name__, "lower_bound": 7.0, "upper_bound": 11.0}
+            ctx.case(("index-spelling", iv, spelling), case if iv == 3 and spelling == "int" else None)
+            if exc is not None:
+                ctx.violation("Spectra.__call__", f"raises-{type(exc).__name__}", f"raises for index {iv!r} ({spelling}): {exc}", case)
+                continue
+            y = np.asarray(out[0], dtype=np.float64)
+            F = np.array([cdf(float(iv), 7.0, 11.0, yy) for yy in y])
+            tol = cdf_tol(float(iv), 7.0, 11.0)
+            bad = np.nonzero(~(np.abs(F - us_i) <= tol + 1e-12))[0]
+            if len(bad):
+                k = int(bad[len(bad) // 2])
+                ctx.violation("Spectra.__call__", "not-inverse-cdf", f"log-energy is not the inverse-CDF image of u for index {iv!r} written as {spelling}: F(E)-u = {F[k]-us_i[k]:.3g}",
+                              {**case, "u": float(us_i[k]), "log_e_nu": float(y[k]), "F": float(F[k])})
+            if not close(float(out[1]) * float(out[2]), 1.0, 1e-12):
+                ctx.violation("Spectra.__call__", "norm*sum!=1", "spec_norm * sum_spec_weights != 1", {**case, "norm": float(out[1]), "sum": float(out[2])})
     # ------------------------------------------------------------------ structured stream
     sizes = [0, 1, 2, 3, 7, 64, 1000] + ([8191, 8192, 8193] if ctx.thorough else [257])
     for k in range(120 * T):
